@@ -44,14 +44,16 @@ def round (F : Family w) (W : List (BitVec w)) (s : State w) (t : Nat) : State w
   (T1 + T2, a, b, c, d + T1, e, f, g)
 
 /-- sixteen big-endian w-bit words of a block -/
-def parse (w : Nat) (block : List Byte) : List (BitVec w) :=
-  (groups (w / 8) block).map fun g => BitVec.ofNat w (beVal g)
+def parse (w : Nat) (block : List Byte) : List (BitVec w) := wordsBE w block
 
-def compress (F : Family w) (H : State w) (block : List Byte) : State w :=
-  let W := schedule F (parse w block)
+/-- steps 1–4 of §6.2.2 / §6.4.2 for one block given as its sixteen words M -/
+def compressWords (F : Family w) (H : State w) (M : List (BitVec w)) : State w :=
+  let W := schedule F M
   let (a, b, c, d, e, f, g, h) := (List.range F.rounds).foldl (round F W) H
   let (h0, h1, h2, h3, h4, h5, h6, h7) := H
   (a + h0, b + h1, c + h2, d + h3, e + h4, f + h5, g + h6, h + h7)
+
+def compress (F : Family w) (H : State w) (block : List Byte) : State w := compressWords F H (parse w block)
 
 /-- the chaining value as bytes, truncated to the leftmost `n` bytes -/
 def out (n : Nat) (H : State w) : List Byte :=
